@@ -505,7 +505,7 @@ def computeSwap (exactIn : Bool) (s : St) (pool : Nat) (denomIn denomOut : Denom
 def updatePoolForSwap (s : St) (p : Pool) (sender : Addr) (denomIn : Denom) (amtIn : Int) (denomOut : Denom) (amtOut : Int) (o : SwapOut) : Res St := do
   let feeInt := Dec.truncateInt (Dec.ceil o.fees)
   let inNet := amtIn - feeInt
-  if inNet < 0 then Res.err "invalid-coins"     -- a Coin with negative amount is rejected by SendCoins (error, not panic)
+  if inNet ≤ 0 then Res.err "invalid-coins"     -- `sdk.Coins{tokenIn}` with a zero or negative amount is rejected by SendCoins (error, not panic): the fee rounded up can eat the whole input
   if sendDisabled denomIn then Res.err "send-disabled"
   let b1 ← s.bank.send sender (poolAddr p.id) denomIn inNet
   let b2 ← if feeInt ≠ 0 then b1.send sender (feesAddr p.id) denomIn feeInt else pure b1
